@@ -179,11 +179,11 @@ func (m *urlModule) createURLSearchParamsPrototype() *goja.Object {
 
 		if fn, ok := goja.AssertFunction(call.Argument(0)); ok {
 			for _, pair := range u.searchParams {
-				// name, value, searchParams
+				// value, name, searchParams
 				_, err := fn(
 					nil,
-					m.r.ToValue(pair.name),
 					m.r.ToValue(pair.value),
+					m.r.ToValue(pair.name),
 					call.This,
 				)
 
